@@ -175,7 +175,9 @@ func renderDef(d adef) []byte {
 	lang := d.Lang
 	f := M{"uuid": c16FlowUUID, "name": "Migrate me", "spec_version": versionString(d.Ver), "language": lang, "type": "messaging",
 		"expire_after_minutes": 30, "nodes": nodes, "localization": M{"spa": spa},
-		"_ui": M{"nodes": M{c16Node0: M{"position": M{"left": 1, "top": 2}}}}}
+		// numbers that a float64 cannot hold exactly: every migration step has to carry them as written
+		"revision": json.Number([]string{"9007199254740993", "9223372036854775807", "123"}[(d.Ver+len(d.Tpl))%3]),
+		"_ui":      M{"nodes": M{c16Node0: M{"position": M{"left": 1, "top": 2}}}}}
 	return mustJSON(f)
 }
 
@@ -309,6 +311,17 @@ func checkMigration(src []byte, dver, target, mid int, legacy bool, line *C16Lin
 		return
 	}
 	line.Loads = true
+	// numbers are carried as written (revision is the one the generated definitions set)
+	var rs, rl struct {
+		Revision json.Number `json:"revision"`
+	}
+	ds, dl := json.NewDecoder(bytes.NewReader(src)), json.NewDecoder(bytes.NewReader(latest))
+	ds.UseNumber()
+	dl.UseNumber()
+	if ds.Decode(&rs) == nil && dl.Decode(&rl) == nil && rs.Revision != "" && rs.Revision != rl.Revision && !legacy {
+		line.TemplatesSame = false
+		line.Detail = fmt.Sprintf("revision %s became %s", rs.Revision, rl.Revision)
+	}
 	gl, _ := graphOf(latest)
 	if !legacy {
 		gs, _ := graphOf(src)
